@@ -412,37 +412,12 @@ def run_corpus(ctx, impl, known, hits):
         ctx.violation("corpus", "# C02: stored replays (repaired defects) deviate from the Recommendation again\n" + "\n".join(bad))
 
 
-def _empty_parens(m):
-    # '()' used as a primary expression (not a function call / node-type test): 'true < ()'
-    return re.sub(r"(?<![\w\-.:])(\s*)\(\s*\)", r"\1(0)", m)
-
-
-def _trailing_operator(m):
-    # a binary operator directly before ')' ']' ',' or the end: "'a'+)", '*|)', '.2-', '(*<)'
-    prev = None
-    while prev != m:
-        prev = m
-        m = re.sub(r"(?:!=|<=|>=|[-+|<>=*]|\b(?:or|and|div|mod)\b)\s*(?=[)\],]|$)", "", m)
-    return m
-
-
-def _odd_number_or_variable(m):
-    # numbers with two dots ('.5.', '.0.5'), '$' followed by digits, by nothing or by a literal
-    m = re.sub(r"\$\s*(?:[\d.]+|'[^']*'|\"[^\"]*\"|(?![\w$]))", "$v", m)
-    m = re.sub(r"(?<![\w.])(?:\d+\.\d*|\.\d+)(?:\.\d*)+", "1", m)
-    # a number running into letters: '.05a'
-    return re.sub(r"(?<![\w.])(?:\d+\.?\d*|\.\d+)(?!(?:div|mod|and|or)\b)[A-Za-z_]\w*", "1", m)
-
-
-# known leniencies of the tokenizer / compiler; each class is decided by undoing exactly that leniency
-# and asking the recogniser again
+# known leniencies of the tokenizer / compiler: (key, normaliser) pairs; a class is decided by undoing exactly
+# that leniency (the normaliser maps a string the library accepts to the well-formed string it is read as)
+# and asking the recogniser again.  K11 and K25-K29 ('! =', 'p: b', 'b/)', '()', 'b |)', '.5.', '$1') were
+# repaired in the library's tokenizer/parser: no leniency is left, every string of the streams that the
+# recogniser refuses must be refused by XPathProcessorImpl.
 LENIENCIES = [
-    ("K11", lambda m: re.sub(r"/\s+/", "//", re.sub(r"([!<>])\s+=", r"\1=", m))),   # also '/ /' read as '//'                        # '! =' '< =' '> ='
-    ("K25", lambda m: re.sub(r"\$\s+", "$", re.sub(r"(?<!:):\s+(?!:)", ":", m))),  # 'p: a', '$ x'
-    ("K26", lambda m: re.sub(r"/\s*\)", ")", m)),                                # 'b/)'
-    ("K27", _empty_parens),
-    ("K28", _trailing_operator),
-    ("K29", _odd_number_or_variable),
 ]
 
 
@@ -496,34 +471,188 @@ def freeze():
                 f.write(xpgen.tok(m) + "\n")
 
 
+# --- the lexical malformed stream (corpus/C02/malformed_lexer.lst) ---------------------------------------------
+# hand-written bases: every token kind of the XPath 1.0 grammar (3.7 ExprToken) at least once
+LEXER_BASES = [
+    "child::a", "descendant-or-self::node()/b", "ancestor::*", "ancestor-or-self::p:a", "attribute::x", "@x", "@p:*", "@*",
+    "following::c", "following-sibling::b[1]", "namespace::p", "parent::node()", "preceding::text()",
+    "preceding-sibling::comment()", "self::a", "descendant::p:*", "processing-instruction('pi')", "processing-instruction()",
+    "//b", "/a/b", "/", ".", "..", "./b", "../c", "b//c", "a/b[c]/d", ".//b", "p:*", "p:b", "*", "b | c", "b|c|/",
+    "(b | c)[1]", "(b)[1]/c", "(b)//c", "$n1", "$ns1/b", "$ns1[1]", "$ns1//c", "$p:v", "$n1 + $n1",
+    "1", "1.", "1.5", ".5", "007", "0.25 + .75", "-1", "- - 1", "-b", "1 + 2", "1 - 2", "3 * 4", "6 div 3", "7 mod 2",
+    "b * 2", "* * *", "2 * *", "1 = 1", "1 != 2", "1 < 2", "1 <= 2", "1 > 2", "1 >= 2", "b = 'x'", 'b = "x"', "1 and 2",
+    "1 or 0", "true() and not(false())", "count(b)", "count(b | c)", "concat('a', 'b', \"c\")", "substring('abc', 2, 1)",
+    "substring-before('a-b', '-')", "string-length()", "last() - 1", "position() = last()", "b[1]", "b[last()]",
+    "b[@t = '2']", "b[1][2]", "b[c or d]", "*[self::b]", "b[. = 2]", "b[.. = /]", "id('x')/b", "id('x')[1]",
+    "translate('abc', 'ab', 'AB') = 'ABc'", "sum(b) div count(b)", "floor(1.5) + ceiling(.5) + round(2.)", "(1 + 2) * 3",
+    "((b))", "(/)", "count(/)", "boolean(/ | b)", "div div mod", "and and or", "mod mod mod", "or or or", "div * mod",
+    "text()", "node()", "comment()", "b/text()", "b/@*[1]", "local-name(*)", "name(.)", "lang('en')",
+    "normalize-space(' a ')", "starts-with('ab', 'a')", "contains($s1, 'a')", "number('1') + $n1", "string(1 div 0)",
+    "1 < 2 = (2 > 1)", "1 <= 2 != (2 >= 3)", "a-b", "a.b", "a - b", "a -b", "_a", "p:a-b.c", "b[1] | c[2]/@x",
+]
+# the strings the findings K11, K25-K29 were reported with (and '*()' / 'p:*()', found by this stream)
+LEXER_REPLAYS = ["1 ! = 2", "1 < = 2", "1 > = 2", "/ /", "/ / b", "a/ /b", "p: b", "p: *", "$ x", "count(b/)", "(b/)", "b[true < ()]",
+                 "b[true() < ()]", "()", "count(b |)", "b['a' +]", ".2-", "-", "b |", ".5.", ".0.5", ".05a", "b[$1]", "b[$]", "b[$'a']",
+                 "$p:*", "$*", "$", "child::*()", "@*()", "b/*( )", "p:*()", "p:*(1)"]
+_BINOPS = ["+", "-", "*", "div", "mod", "=", "!=", "<", "<=", ">", ">=", "and", "or", "|", "/", "//"]
+
+
+def raw_tokens(s):
+    """[(start, end, kind, text)] per ExprToken of s (white space skipped), None when a character fits no token"""
+    out, i, n = [], 0, len(s)
+    while True:
+        while i < n and s[i] in " \t\r\n":
+            i += 1
+        if i >= n:
+            return out
+        m = xpsyntax.TOKEN_RX.match(s, i)
+        if not m or m.end() == i:
+            return None
+        for k in ("num", "lit", "op2", "op1", "name"):
+            if m.group(k) is not None:
+                out.append((m.start(k), m.end(k), k, m.group(k)))
+                break
+        i = m.end()
+
+
+def lexer_mutants(s, r):
+    """(class, string) pairs: lexical mutations of the well-formed expression s.  NOT filtered: the caller keeps
+    those the recogniser refuses."""
+    toks = raw_tokens(s) or []
+    ws = [" ", "\t", "\n", "  "]
+    for i, (st, en, k, t) in enumerate(toks):
+        # white space INSIDE a token (a name, a QName at and around the colon, a number, '//' '::' '..' '!=' '<=' '>=')
+        if k != "lit":
+            for pos in range(st + 1, en):
+                yield "ws-in-" + k, s[:pos] + " " + s[pos:]
+                yield "ws-in-" + k, s[:pos] + r.choice(ws) + s[pos:]
+        if t == "$":
+            for w in ws:
+                yield "ws-after-dollar", s[:en] + w + s[en:]
+        # truncation at every token boundary, from both ends
+        if i + 1 < len(toks):
+            yield "truncated", s[:en]
+        if i > 0:
+            yield "truncated-front", s[st:]
+        # a token removed (missing operand / operator / bracket), doubled, swapped with its neighbour
+        yield "token-removed", s[:st] + s[en:]
+        yield "token-doubled", s[:en] + t + s[en:]
+        yield "token-doubled", s[:en] + " " + t + s[en:]
+        if i + 1 < len(toks):
+            st2, en2, _, t2 = toks[i + 1]
+            yield "tokens-swapped", s[:st] + t2 + s[en:st2] + t + s[en2:]
+        # an operator without its right operand: directly before ')' ']' ',' ; without its left one: after '(' '[' ','
+        if t in (")", "]", ","):
+            for op in _BINOPS:
+                yield "operator-before-closer", s[:st] + " " + op + " " + s[st:]
+                yield "operator-before-closer", s[:st] + op + s[st:]
+        if t in ("(", "[", ","):
+            for op in _BINOPS:
+                yield "operator-after-opener", s[:en] + " " + op + " " + s[en:]
+        # empty parentheses / predicate in place of, before and after an operand
+        for e in ("()", "[]", "( )"):
+            yield "empty-brackets", s[:st] + e + s[st:]
+            yield "empty-brackets", s[:st] + e + s[en:]
+        # number tokens: a second point, letters running into it, exponents, signs glued on
+        if k == "num":
+            for m in (t + ".", t + ".5", t + "..", "." + t, t + "a", t + "e3", t + "E-3", t + "-", t + "_", "0x" + t, t + ".5.5", t.replace(".", "..")):
+                if m != t:
+                    yield "number-token", s[:st] + m + s[en:]
+        # variable references: '$' followed by white space, digits, nothing, a literal, '*', another '$', a half QName
+        if t == "$" and i + 1 < len(toks):
+            st2, en2, _, name = toks[i + 1]
+            for m in ("$ " + name, "$1", "$", "$'a'", '$"a"', "$$" + name, "$:" + name, "$" + name + ":", "$p:*", "$*", "$-" + name,
+                      "$." + name, "$(" + name + ")", "$1" + name, "$" + name + " :x", "$p: " + name, "$p :" + name, "$[1]", "$/" + name):
+                yield "variable-token", s[:st] + m + s[en2:]
+    for op in _BINOPS + ["-", ",", "(", "[", "@", "$", "::", ":", "!", "."]:
+        yield "operator-at-end", s + " " + op
+        yield "operator-at-end", s + op
+        yield "operator-at-start", op + " " + s
+
+
+def gen_lexer_malformed(per_class=1200, seed=20261002):
+    """the lexical malformed stream: white space inside every token kind, truncations at every token boundary,
+    doubled / missing / swapped tokens, operators without operand, empty brackets, number and variable token
+    mutations of well-formed expressions; kept: the strings the independent recogniser refuses.
+    -> [(class, string)]"""
+    import random
+
+    class _Shim:
+        rng = random.Random(seed)
+
+        def count(self, *a, **k):
+            pass
+    shim = _Shim()
+    r = shim.rng
+    bases = list(LEXER_BASES) + sorted(set(c["str"] for c in gen_cases(shim, 30, 20, 3) if 0 < len(c["str"]) <= 70))[:160]
+    assert all(xpsyntax.recognise(b) for b in bases)
+    by_cls, seen = {}, set()
+    for m in LEXER_REPLAYS:
+        if not xpsyntax.recognise(m) and m not in seen:
+            seen.add(m)
+            by_cls.setdefault("replay", []).append(m)
+    for b in bases:
+        for cls, m in lexer_mutants(b, r):
+            if not m.strip() or m in seen or xpsyntax.recognise(m):
+                continue
+            seen.add(m)
+            by_cls.setdefault(cls, []).append(m)
+    out = []
+    for cls in sorted(by_cls):
+        ms = by_cls[cls]
+        if len(ms) > per_class:
+            ms = r.sample(ms, per_class)
+        out += [(cls, m) for m in ms]
+    return out
+
+
+def freeze_lexer():
+    """maintenance: (re)write corpus/C02/malformed_lexer.lst (python3 -c 'from props import C02; C02.freeze_lexer()').
+    One line per string: '<class> <u:token>'."""
+    with open(os.path.join(core.VERIF, "corpus", "C02", "malformed_lexer.lst"), "w") as f:
+        for cls, m in gen_lexer_malformed():
+            f.write("%s %s\n" % (cls, xpgen.tok(m)))
+
+
 def malformed_stream(ctx, cases, impl, known, hits, n):
-    """'Strings that are not XPath expressions are rejected with an error'.  The stream is FROZEN in
-    corpus/C02/malformed_<tier>.lst (strings the independent recogniser vlib/xpsyntax.py refuses): the
-    library's compiler is lenient in several recorded ways (K11, K25-K29), every string of the frozen
-    stream that it accepts has been classified, and a newly accepted string is a violation."""
+    """'Strings that are not XPath expressions are rejected with an error'.  The streams are FROZEN:
+    corpus/C02/malformed_<tier>.lst (random character mutations of well-formed expressions) and
+    corpus/C02/malformed_lexer.lst (systematic lexical mutations, '<class> <string>' per line), all strings the
+    independent recogniser vlib/xpsyntax.py refuses.  The files are inputs, not expectations: every string is
+    judged again by the recogniser here, and XPathProcessorImpl must refuse it when it is COMPILED (an error that
+    only shows when the compiled object is evaluated depends on the document and is not a rejection).  The
+    leniencies K11, K25-K29 were repaired; LENIENCIES lists the (currently no) recorded ones that remain."""
     name = "malformed_thorough.lst" if n > 5000 else "malformed_quick.lst"
     path = os.path.join(core.VERIF, "corpus", "C02", name)
     if os.path.exists(path):
-        toks = [l.strip() for l in open(path) if l.strip()]
+        toks = [("random", l.strip()) for l in open(path) if l.strip()]
     else:
-        toks = [xpgen.tok(m) for m in gen_malformed(n)]
+        toks = [("random", xpgen.tok(m)) for m in gen_malformed(n)]
+    lpath = os.path.join(core.VERIF, "corpus", "C02", "malformed_lexer.lst")
+    if os.path.exists(lpath):
+        toks += [tuple(l.split()) for l in open(lpath) if len(l.split()) == 2]
+    else:
+        ctx.broken.append("corpus/C02/malformed_lexer.lst is missing (python3 -c 'from props import C02; C02.freeze_lexer()')")
     lines, info = [], {}
-    for k, t in enumerate(toks):
+    for k, (cls, t) in enumerate(toks):
         cid = "m%d" % k
         lines.append("%s|eval|%s|X:%s" % (cid, MALFORMED_DOC, t))
-        info[cid] = u16_to_str(t)
+        info[cid] = (cls, u16_to_str(t))
     if not lines:
         return
     rc, res, raw = core.run_lines_parallel(impl, lines, sep="|")
-    bad = []
-    for cid, m in info.items():
+    bad, stale = [], 0
+    for cid, (scls, m) in info.items():
         ctx.cov["evaluations"] += 1
+        if xpsyntax.recognise(m):
+            stale += 1          # the recogniser changed its mind about a frozen string: not an input of this stream
+            continue
         ctx.count("malformed:invalid")
+        ctx.count("malformed:" + scls)
         out = res.get(cid)
         if out is None:
             bad.append("# no result from the library (crash?) for the invalid string %r\n%s" % (m, [l for l in lines if l.startswith(cid + "|")][0]))
-        elif not (out.startswith("compile") or out.split("|")[0].startswith("G:err")):
-            # rejected = a compile error, or an error when the compiled object is evaluated
+        elif not out.startswith("compile:err"):
             # known leniencies of the tokenizer/compiler: the class is decided by undoing exactly that
             # leniency and asking the recogniser again
             cls = None
@@ -531,7 +660,7 @@ def malformed_stream(ctx, cases, impl, known, hits, n):
                 if key in known and norm(m) != m and xpsyntax.recognise(norm(m)):
                     cls = key
                     break
-            if cls is None:
+            if cls is None and LENIENCIES:
                 both = m
                 for key, norm in LENIENCIES:
                     if key in known:
@@ -543,9 +672,64 @@ def malformed_stream(ctx, cases, impl, known, hits, n):
                 continue
             bad.append("# %r is not an XPath 1.0 expression but the library compiled it: %s\n%s" % (
                 m, out[:80], [l for l in lines if l.startswith(cid + "|")][0]))
+    if stale:
+        ctx.broken.append("%d strings of the frozen malformed streams are accepted by vlib/xpsyntax.py now: refreeze them" % stale)
     if bad:
         ctx.violation("malformed", "# C02: strings that are not XPath expressions must be rejected with an error\n" + "\n".join(bad[:40]))
-    ctx.notes["malformed_checked"] = len(info)
+    ctx.notes["malformed_checked"] = len(info) - stale
+
+
+def perturb_ws(s, r, p):
+    """s with white space inserted (probability p per place) before, after and between its ExprTokens - everywhere
+    XPath 3.7 allows it: not inside a token, not between '$' and the name"""
+    toks = raw_tokens(s)
+    if toks is None:
+        return None
+    ws = [" ", " ", "  ", "\t", "\n", "\r\n", " \n "]
+    out, pos = [r.choice(ws)] if r.random() < p else [], 0
+    for st, en, k, t in toks:
+        out.append(s[pos:en])
+        pos = en
+        if t != "$" and r.random() < p:
+            out.append(r.choice(ws))
+    out.append(s[pos:])
+    return "".join(out)
+
+
+def ws_stream(ctx, cases, impl, n):
+    """the other direction of 'strings that are not expressions are rejected': white space between ExprTokens is
+    insignificant (3.7), so a generated well-formed expression with white space inserted between its tokens must
+    still compile and must give, field by field, the result of the expression as generated (same library, same
+    document and context) - a tokenizer that refuses or re-reads 'child :: a', 'f ( )', 'a [ 1 ]', '- 1', '$x', 'p:*'
+    shows here.  Seeded from ctx.rng after every other stream."""
+    import random
+    r = random.Random(ctx.rng.getrandbits(64))
+    picked = cases if len(cases) <= n else r.sample(cases, n)
+    lines, info = [], {}
+    for k, c in enumerate(picked):
+        t = perturb_ws(c["str"], r, r.choice([0.3, 0.6, 1.0]))
+        if t is None or t == c["str"]:
+            continue
+        if not xpsyntax.recognise(t):
+            ctx.broken.append("ws stream: the perturbed string %r is refused by the recogniser (generator defect)" % t)
+            return
+        fields = [f for f in c["line"].split("|")[1:] if not f.startswith("A:")]
+        lines.append("|".join(["wo%d" % k] + fields))
+        lines.append("|".join(["wp%d" % k] + [("X:" + xpgen.tok(t)) if f.startswith("X:") else f for f in fields]))
+        info[k] = (c["str"], t, lines[-1])
+    if not lines:
+        return
+    rc, res, raw = core.run_lines_parallel(impl, lines, sep="|")
+    bad = []
+    for k, (s, t, line) in info.items():
+        ctx.cov["evaluations"] += 1
+        ctx.count("ws:perturbed")
+        o, p = res.get("wo%d" % k), res.get("wp%d" % k)
+        if o is None or p is None or o != p:
+            bad.append("# %r with white space between its tokens, %r: %s, as generated: %s\n%s" % (s, t, (p or "no result")[:80], (o or "no result")[:80], line))
+    if bad:
+        ctx.violation("whitespace", "# C02: white space between the tokens of an expression (XPath 3.7) changes the result or is refused\n" + "\n".join(bad[:40]))
+    ctx.notes["ws_perturbed_checked"] = len(info)
 
 
 def run(ctx):
@@ -566,7 +750,8 @@ def run(ctx):
                          "boundary streams for string search, comparisons hinging on equality, numbers) x generated documents x "
                          "context node/list; distinct = distinct expression strings; non-trivial = the expression contains at least "
                          "one operator, function call or location step (every generated case does); the malformed stream counts "
-                         "separately (malformed_checked); the id() stream (id_stream_cases; classes id:* and iddoc:*) uses documents with "
+                         "separately (malformed_checked: corpus/C02/malformed_<tier>.lst + malformed_lexer.lst, every string refused by the recogniser must fail to COMPILE), "
+                         "so does the white-space stream (ws_perturbed_checked: generated expressions with white space inserted between their tokens give the unperturbed result); the id() stream (id_stream_cases; classes id:* and iddoc:*) uses documents with "
                          "DTD-declared ID/IDREF/IDREFS/CDATA/NMTOKEN(S)/enumerated attributes and every argument shape of id()")
     ok_lib, liblog = core.build_lib("plain")
     if not ok_lib:
@@ -611,6 +796,7 @@ def run(ctx):
     # the id() stream (documents with an internal DTD subset).  Its random.Random is seeded from ctx.rng only
     # HERE, after every other draw, so the streams above are what they were before this stream existed.
     id_part(ctx, impl, orc, proved, known)
+    ws_stream(ctx, cases, impl, 3000 if not ctx.thorough else 30000)
     new = [o for o in orc if not (o["known"] and o["known"] in known)]
     for o in orc:
         if o["known"] and o["known"] in known:
